@@ -52,6 +52,9 @@ func Scenarios(prop string) []gx.Sc {
 		{Name: "cg?m=1&np=1&n=3&mode=k1e&ns=2&init=valid&gates=" + gates + "&faults=" + faults + ca, Q: 1, T: 2},
 		// an explicit offset retention: commits travel in the request version that carries it
 		{Name: "cg?m=1&np=1&n=2&mode=all&ns=2&ret=1&gates=" + gates + "&faults=" + faults + ca, Q: 1, T: 2},
+		// the partition moves to another broker, e.g. between two sessions (the next session talks to the new leader while the old
+		// session's last fetch may still be waiting at the old one)
+		{Name: "cg?m=1&np=1&n=2&mode=all&ns=2&move=1&gates=" + gates + "&faults=hb-rebalance" + ca, Q: 2, T: 3},
 		// no rebalance retries at all (Rebalance.Retry.Max = 0): every budget-bound branch of a rebalance is on its last attempt
 		{Name: "cg?m=1&np=1&n=2&mode=all&ns=2&rbmax=0&gates=" + gates + "&faults=" + faults + ca, Q: 2, T: 3},
 	}
